@@ -136,6 +136,9 @@ func cmdEngineTraces(args []string) {
 			if *mode == "fetch" || (*mode == "mixed" && r.Intn(3) == 0) {
 				cc.Mode = "fetch"
 			}
+			if k > 0 && cc.World.HasN && r.Intn(4) == 0 {
+				cc.World.HasN = false // an optional fact that this call's data context does not hold: rules reading it cannot be evaluated
+			}
 			if k == 0 && r.Float64() < *shadowP {
 				cc.Shadow = true
 			}
